@@ -626,7 +626,17 @@ def showSRes : SRes → String
       ++ " start=" ++ toString v.tStart ++ " stop=" ++ toString v.tStop
 
 
+/-- timing of a regularly acquired kymograph: `P` pixels of `k` samples per line, `dead` unused samples between lines,
+    sample period `dt`, first used sample at `t0`: pixel `r` of line `l` spans samples
+    `l·(P·k + dead) + r·k … + k − 1` (what the reconstruction of pylake assigns; compared with real objects by `c06.regular`) -/
+def regPix (t0 : Int) (P k dead : Nat) (dt : Int) (r l : Nat) : Pix :=
+  ⟨0, t0 + ((l * (P * k + dead) + r * k : Nat) : Int) * dt, t0 + ((l * (P * k + dead) + r * k + (k - 1) : Nat) : Int) * dt⟩
+
+def regularImg (t0 : Int) (P L k dead : Nat) (dt : Int) : Img :=
+  (List.range P).map fun r => (List.range L).map fun l => regPix t0 P k dead dt r l
+
 /-- ops:
+  `c06.regular <t0> <P> <L> <k> <dead> <dt>`   line ranges and per-pixel timestamps of the regular kymograph
   `c06.kymo <img rows of v:tmin:tmax> <delta> <px p/q> <unit> <pxum p/q|N> <linetime p/q> <scantime p/q> <pixeltime ns> <start> <stop> op…`
   `c06.scan <frames: rows of v:tmin:tmax pixels, frames separated by |> <delta> <fastRows 0|1> <start> <stop> op…` -/
 def handle : List String → Option String
@@ -641,6 +651,11 @@ def handle : List String → Option String
     let t0 ← int? t0; let t1 ← int? t1
     let v : KView := ⟨img, true, delta, px, unit, pxum, lt, st, false, 0, pt, ratToFloat px, t0, t1⟩
     some (showKRes (runK v ops))
+  | ["c06.regular", t0, P, L, k, dead, dt] => do
+    let t0 ← int? t0; let P ← nat? P; let L ← nat? L; let k ← nat? k; let dead ← nat? dead; let dt ← int? dt
+    let img := regularImg t0 P L k dead dt
+    some ("ranges=" ++ showRanges (lineRanges img dt) ++ " ts=" ++
+      showListList showInt (img.map fun r => r.map Pix.tmean))
   | "c06.scan" :: frames :: delta :: fastRows :: t0 :: t1 :: ops => do
     let frames ← (frames.splitOn "|").mapM (listListOf? pix?)
     let delta ← int? delta
